@@ -112,8 +112,10 @@ def random_object_op(rng, pids, content_names, fake_cids=(1, 2), kinds=("path", 
         return {"op": "store", "pid": None, "content": rng.choice(content_names), "kind": rng.choice(kinds)}
     if r < 0.52:
         q = rng.random()
-        if q < 0.7:
+        if q < 0.5:
             return {"op": "tag", "pid": rng.choice(pids), "cid": ["of", rng.choice(content_names)]}
+        if q < 0.7:
+            return {"op": "tag", "pid": rng.choice(pids), "cid": ["returned", rng.choice(content_names)]}
         if q < 0.8:
             return {"op": "tag", "pid": rng.choice(pids), "cid": ["upper", rng.choice(content_names)]}
         return {"op": "tag", "pid": rng.choice(pids), "cid": ["fake", rng.choice(fake_cids)]}
